@@ -16,6 +16,7 @@ type expect struct {
 	coll   map[string][]kv   // collection variables (normalised by the variable's mode, sorted)
 	single map[string]string // scalar variables
 	skip   map[string]string // variable -> why it is not asserted in this case
+	opt    map[string][]kv   // synthetic entries that may additionally be readable (array lengths)
 }
 
 func (e *expect) add(name string, k, v string) { e.coll[name] = append(e.coll[name], kv{k, v}) }
@@ -31,7 +32,7 @@ func safePath(p string) bool {
 }
 
 func expectation(cs Case, rq scen.Req) *expect {
-	e := &expect{coll: map[string][]kv{}, single: map[string]string{}, skip: map[string]string{}}
+	e := &expect{coll: map[string][]kv{}, single: map[string]string{}, skip: map[string]string{}, opt: map[string][]kv{}}
 	method := rq.Method
 	if method == "" {
 		method = "GET"
@@ -43,8 +44,14 @@ func expectation(cs Case, rq scen.Req) *expect {
 	if i := strings.IndexByte(rq.URI, '?'); i >= 0 {
 		path, query = rq.URI[:i], rq.URI[i+1:]
 	}
+	absolute := strings.HasPrefix(path, absPrefix)
+	path = strings.TrimPrefix(path, absPrefix)
 	e.single["QUERY_STRING"] = query
-	if u, err := url.ParseRequestURI(rq.URI); err == nil && u.String() == rq.URI {
+	if absolute {
+		// variables.go documents REQUEST_URI as "without the domain name", the repository's
+		// TestTxProcessURI demands the domain name: not asserted.
+		e.skip["REQUEST_URI"] = "documentation and the repository's tests disagree for absolute-form request targets"
+	} else if u, err := url.ParseRequestURI(rq.URI); err == nil && u.String() == rq.URI {
 		e.single["REQUEST_URI"] = rq.URI
 	} else {
 		e.skip["REQUEST_URI"] = "net/url re-encodes this URI (documented normalisation)"
@@ -110,11 +117,16 @@ func expectation(cs Case, rq scen.Req) *expect {
 			e.skip["REQUEST_BODY"] = "documented as available for urlencoded bodies only"
 		case "json":
 			for _, it := range cs.Items {
-				k := "json." + it.Name
-				if it.Kind == "n" {
-					k += "." + it.Sub
+				post = append(post, kv{jsonKey(it), it.Value})
+				if it.Kind == "l" {
+					// coraza additionally publishes the length of every array under the array's key
+					for _, v := range []string{"ARGS_POST", "ARGS"} {
+						e.opt[v] = append(e.opt[v], kv{"json." + it.Name, "1"})
+					}
+					for _, v := range []string{"ARGS_POST_NAMES", "ARGS_NAMES"} {
+						e.opt[v] = append(e.opt[v], kv{"", "json." + it.Name})
+					}
 				}
-				post = append(post, kv{k, it.Value})
 			}
 			e.skip["REQUEST_BODY"] = "documented as available for urlencoded bodies only"
 		case "xmlattr":
@@ -225,6 +237,7 @@ func judge(cs Case, exp *expect, o *probe.Outcome) verdict {
 	}
 	if o.Interruption != "-" {
 		v.signalled = true
+		v.why = "interruption"
 	}
 	for _, sp := range varSpecs {
 		if sp.mode != "err" {
@@ -233,6 +246,7 @@ func judge(cs Case, exp *expect, o *probe.Outcome) verdict {
 		for _, p := range got[sp.name] {
 			if p.v != "" && p.v != "0" {
 				v.signalled = true
+				v.why = sp.name
 			}
 		}
 	}
@@ -260,6 +274,10 @@ func judge(cs Case, exp *expect, o *probe.Outcome) verdict {
 			continue
 		}
 		missing, extra := diff(want, have)
+		_, extra = diff(exp.opt[sp.name], extra) // tolerated synthetic entries
+		if len(missing) == 0 && len(extra) == 0 {
+			continue
+		}
 		v.sig = classify(cs, sp, missing, extra, got)
 		v.what = fmt.Sprintf("%s: sent %s, readable %s (missing %s, unexpected %s); no error variable, no interruption",
 			sp.name, fmtKVs(want), fmtKVs(have), fmtKVs(missing), fmtKVs(extra))
@@ -325,7 +343,7 @@ func classify(cs Case, sp varSpec, missing, extra []kv, got map[string][]kv) str
 	kind := ""
 	switch {
 	case len(extra) == 0:
-		kind = "missing"
+		kind = "missing" + siblings(cs, sp, missing)
 	case len(missing) == 0:
 		kind = "unexpected-extra"
 	default:
@@ -338,10 +356,61 @@ func classify(cs Case, sp varSpec, missing, extra []kv, got map[string][]kv) str
 	return cs.Chan + "/" + sp.name + ":" + kind
 }
 
+// siblings refines "missing" by the narrowest relation between every missing
+// item and the other items sent in the same collection.
+func siblings(cs Case, sp varSpec, missing []kv) string {
+	name := func(it Item) string {
+		switch {
+		case cs.Chan == "json":
+			return jsonKey(it)
+		case sp.name == "FILES":
+			return it.Sub
+		}
+		return it.Name
+	}
+	allSame, allFold := true, true
+	for _, m := range missing {
+		k := m.k
+		if sp.mode != "kv" && sp.mode != "kvlower" {
+			k = m.v
+		}
+		same, fold := 0, 0
+		for _, it := range cs.Items {
+			n := name(it)
+			if sp.mode == "kvlower" || sp.mode == "nameslower" {
+				n = strings.ToLower(n)
+			}
+			if n == k {
+				same++
+			} else if strings.EqualFold(n, k) {
+				fold++
+			}
+		}
+		if same < 2 {
+			allSame = false
+		}
+		if same+fold < 2 {
+			allFold = false
+		}
+	}
+	switch {
+	case len(cs.Items) < 2:
+		return ""
+	case allSame:
+		return "-one-of-a-repeated-name"
+	case allFold:
+		return "-one-of-names-differing-in-case"
+	}
+	return ""
+}
+
 func jsonKey(it Item) string {
 	k := "json." + it.Name
-	if it.Kind == "n" {
+	switch it.Kind {
+	case "n":
 		k += "." + it.Sub
+	case "l":
+		k += ".0"
 	}
 	return k
 }
@@ -352,8 +421,14 @@ func jsonCollision(cs Case, missing []kv) string {
 	exact, fold := 0, 0
 	for _, m := range missing {
 		ne, nf := 0, 0
+		var keys []string
 		for _, it := range cs.Items {
-			k := jsonKey(it)
+			keys = append(keys, jsonKey(it))
+			if it.Kind == "l" {
+				keys = append(keys, "json."+it.Name) // the array-length entry coraza publishes
+			}
+		}
+		for _, k := range keys {
 			if k == m.k {
 				ne++
 			} else if strings.EqualFold(k, m.k) {
